@@ -631,16 +631,26 @@ def gen_stats(ch, spec):
     cfg["rtcp_ssrc"] = ch.randint("cfg", 1, 0xFFFFFFFF, 99)
     cfg["sr"] = ch.chance("cfg", 0.5)
     n = ch.choice("wl", [3, 8, 20, 40])
+    # a share of histories is made of hundreds of forward jumps: dozens of sequence cycles and a cumulative
+    # loss beyond what the 24-bit field can hold (the clamp)
+    jumpy = ch.chance("cfg", 0.1)
+    cfg["jumpy"] = jumpy
+    if jumpy:
+        n = ch.choice("wl", [150, 300, 450])
     ops = []
     for _ in range(n):
         r = ch.index("wl", 100)
+        if jumpy and r >= 30:
+            r = ch.index("wl", 12)          # mostly sequence jumps, short runs in between
         op = {"k": "run", "stream": ch.index("wl", cfg["nstreams"]),
               "frames": ch.choice("wl", [1, 5, 30, 120, 400]),
               "per": ch.choice("wl", [1, 1, 2, 5]),
               "dt": ch.choice("wl", [0.0, 0.005, 0.02, 0.02, 0.5]),
               "ts_step": ch.choice("wl", [0, 160, 960, 3000, 90000, 1 << 24])}
+        if jumpy and r >= 12:
+            op.update(frames=ch.choice("wl", [1, 3, 10]), per=1, dt=0.0)
         if r < 12:
-            op = {"k": "seqjump", "stream": op["stream"], "by": ch.choice("wl", [1, 10, 1000, 20000, 32000])}
+            op = {"k": "seqjump", "stream": op["stream"], "by": ch.choice("wl", [1, 10, 1000, 20000, 32000] + ([32000] * 6 if jumpy else []))}
         elif r < 20:
             op = {"k": "clock", "by": ch.choice("wl", [-7200.0, -30.0, -0.5, 0.5, 30.0, 3600.0, 10000.0])}
         elif r < 26:
@@ -650,6 +660,10 @@ def gen_stats(ch, spec):
         elif r < 36:
             op = {"k": "getstats"}
         ops.append(op)
+        if jumpy and op["k"] == "seqjump":
+            # a packet or two after every jump, so that each jump is seen by the receiver
+            ops.append({"k": "run", "stream": op["stream"], "frames": ch.choice("wl", [1, 2, 5]), "per": 1, "dt": 0.0,
+                        "ts_step": 960})
     return cfg, ops
 
 
@@ -845,6 +859,8 @@ class StatsWorld(BaseWorld):
                 if ref is None:
                     self.violation("C18", "rr-for-unknown-ssrc", "ssrc=%d" % ssrc)
                     continue
+                if ref.expected - ref.received > (1 << 23) - 1:
+                    self.probes["cumulative_loss_clamped"] += 1
                 want = {"fraction_lost": ref.fraction(), "packets_lost": ref.lost(),
                         "highest_sequence": ref.ext_max & 0xFFFFFFFF, "jitter": (ref.jq4 >> 4)}
                 got = {"fraction_lost": frac, "packets_lost": lost, "highest_sequence": highest, "jitter": jitter}
